@@ -1,8 +1,376 @@
-(* C05 — proofs *)
+(* C05 — proofs, part 1: sampling lemmas (walk), waveform smart constructors, to_waveform plays the program *)
 From Coq Require Import List ZArith QArith Bool Lia.
-Require Import QV.C05.Model.
+Require Import QV.C05.Model QV.C05.Spec.
 Import ListNotations.
 Open Scope Z_scope.
 
-Lemma chain_apply_app : forall G1 G2 f c, chain_apply (G1 ++ G2) f c = chain_apply G2 (chain_apply G1 f) c.
-Proof. induction G1 as [|t G1 IH]; intros; cbn; [reflexivity|apply IH]. Qed.
+Definition parts := list (Z * (Z -> oq)).
+Definition total (p : parts) : Z := fold_right (fun x s => fst x + s) 0 p.
+Definition pnonneg (p : parts) : Prop := Forall (fun x => 0 <= fst x) p.
+
+Lemma total_cons d f p : total ((d, f) :: p) = d + total p. Proof. reflexivity. Qed.
+Lemma total_nil : total [] = 0. Proof. reflexivity. Qed.
+Global Opaque total.
+Lemma total_app p q : total (p ++ q) = total p + total q.
+Proof. induction p as [|[d f] p IH]; [reflexivity|]. rewrite <- app_comm_cons, !total_cons, IH. lia. Qed.
+Lemma total_nonneg p : pnonneg p -> 0 <= total p.
+Proof. induction 1 as [|[d f] p H _ IH]; [rewrite total_nil; lia|]. rewrite total_cons. cbn in H. lia. Qed.
+
+Lemma walk_before p : forall time t, pnonneg p -> t < time -> walk p time t = None.
+Proof.
+  induction p as [|[d f] p IH]; intros time t Hn Ht; cbn; [reflexivity|].
+  inversion Hn; subst; cbn in *.
+  destruct (time <=? t) eqn:E; [apply Z.leb_le in E; lia|]. cbn. apply IH; auto; lia.
+Qed.
+Lemma walk_after p : forall time t, pnonneg p -> time + total p <= t -> walk p time t = None.
+Proof.
+  induction p as [|[d f] p IH]; intros time t Hn Ht; cbn; [reflexivity|].
+  inversion Hn; subst; cbn in *. pose proof (total_nonneg p H2). rewrite total_cons in Ht.
+  destruct (t <? time + d) eqn:E; [apply Z.ltb_lt in E; lia|]. rewrite andb_false_r. apply IH; auto; lia.
+Qed.
+
+Lemma walk_shift p : forall time t k, walk p (time + k) (t + k) = walk p time t.
+Proof.
+  induction p as [|[d f] p IH]; intros; cbn; [reflexivity|].
+  replace (time + k <=? t + k) with (time <=? t) by (destruct (time <=? t) eqn:A; symmetry; [apply Z.leb_le|apply Z.leb_gt]; (apply Z.leb_le in A || apply Z.leb_gt in A); lia).
+  replace (t + k <? time + k + d) with (t <? time + d) by (destruct (t <? time + d) eqn:A; symmetry; [apply Z.ltb_lt|apply Z.ltb_ge]; (apply Z.ltb_lt in A || apply Z.ltb_ge in A); lia).
+  replace (t + k - (time + k)) with (t - time) by lia.
+  replace (time + k + d) with (time + d + k) by lia. rewrite IH. reflexivity.
+Qed.
+Lemma walk_shift0 p time t : walk p time t = walk p 0 (t - time).
+Proof. rewrite <- (walk_shift p 0 (t - time) time). f_equal; lia. Qed.
+
+Lemma walk_app_l p q : forall time t, time <= t < time + total p -> walk (p ++ q) time t = walk p time t.
+Proof.
+  induction p as [|[d f] p IH]; intros time t H; [rewrite total_nil in H; lia|]. rewrite total_cons in H. cbn.
+  destruct ((time <=? t) && (t <? time + d)) eqn:E; [reflexivity|].
+  apply IH. apply andb_false_iff in E as [E|E]; [apply Z.leb_gt in E|apply Z.ltb_ge in E]; lia.
+Qed.
+Lemma walk_app_r p q : forall time t, pnonneg p -> time + total p <= t -> walk (p ++ q) time t = walk q (time + total p) t.
+Proof.
+  induction p as [|[d f] p IH]; intros time t Hn H; [rewrite total_nil; cbn; f_equal; lia|].
+  rewrite total_cons in *. inversion Hn; subst; cbn in *. pose proof (total_nonneg p H3).
+  destruct (t <? time + d) eqn:E; [apply Z.ltb_lt in E; lia|]. rewrite andb_false_r.
+  rewrite IH; auto; [f_equal|]; lia.
+Qed.
+
+(* walking over concatenated groups = walking over one part per group *)
+Definition group (g : parts) : Z * (Z -> oq) := (total g, fun t => walk g 0 t).
+Lemma walk_concat gs : forall time t, Forall pnonneg gs ->
+  walk (concat gs) time t = walk (map group gs) time t.
+Proof.
+  induction gs as [|g gs IH]; intros time t Hn; cbn; [reflexivity|].
+  inversion Hn; subst. pose proof (total_nonneg g H1).
+  destruct (Z_lt_dec t time).
+  - rewrite walk_before; [|apply Forall_app; split; auto; clear -H2; induction H2; cbn; auto; apply Forall_app; auto|lia].
+    destruct (time <=? t) eqn:E; [apply Z.leb_le in E; lia|]. cbn.
+    symmetry. apply walk_before; [|lia].
+    clear -H2. induction H2; cbn; constructor; auto. cbn. apply total_nonneg; auto.
+  - destruct (Z_lt_dec t (time + total g)).
+    + rewrite walk_app_l by lia.
+      replace ((time <=? t) && (t <? time + total g)) with true
+        by (symmetry; apply andb_true_iff; split; [apply Z.leb_le|apply Z.ltb_lt]; lia).
+      apply walk_shift0.
+    + rewrite walk_app_r by (auto; lia).
+      replace (t <? time + total g) with false by (symmetry; apply Z.ltb_ge; lia). rewrite andb_false_r.
+      apply IH; auto.
+Qed.
+
+(* pointwise equal parts *)
+Lemma walk_ext (p q : parts) : Forall2 (fun a b => fst a = fst b /\ forall t, 0 <= t < fst a -> snd a t = snd b t) p q ->
+  forall time t, walk p time t = walk q time t.
+Proof.
+  induction 1 as [|[d f] [d' f'] p q [Hd Hf] _ IH]; intros; cbn in *; [reflexivity|]. subst d'.
+  destruct ((time <=? t) && (t <? time + d)) eqn:E; [|apply IH].
+  apply andb_true_iff in E as [A B]. apply Z.leb_le in A. apply Z.ltb_lt in B. apply Hf. lia.
+Qed.
+
+(* all parts answer X on their domain => the walk answers X inside the total range *)
+Lemma walk_const (p : parts) (X : oq) : Forall (fun a => forall t, 0 <= t < fst a -> snd a t = X) p ->
+  forall time t, time <= t < time + total p -> walk p time t = X.
+Proof.
+  induction 1 as [|[d f] p Hf _ IH]; intros time t H; [rewrite total_nil in H; lia|]. rewrite total_cons in H. cbn in *.
+  destruct ((time <=? t) && (t <? time + d)) eqn:E.
+  - apply andb_true_iff in E as [A B]. apply Z.leb_le in A. apply Z.ltb_lt in B. apply Hf. lia.
+  - apply IH. apply andb_false_iff in E as [E|E]; [apply Z.leb_gt in E|apply Z.ltb_ge in E]; lia.
+Qed.
+
+(* ------------------------------------------------------------------------------------------------------------- *)
+Definition wparts (c : chan) (ws : list wf) : parts := map (fun x => (wdur x, usample x c)) ws.
+Definition wsum (ws : list wf) : Z := fold_right (fun x s => wdur x + s) 0 ws.
+Lemma total_wparts c ws : total (wparts c ws) = wsum ws.
+Proof. induction ws; [reflexivity|]. cbn [wparts map]. rewrite total_cons. fold (wparts c ws). rewrite IHws. reflexivity. Qed.
+
+Lemma wnonneg_seq ws : wnonneg (WSeq ws) <-> Forall wnonneg ws.
+Proof. cbn. induction ws; cbn; split; intros H; auto; [destruct H; constructor; tauto|inversion H; subst; tauto]. Qed.
+
+Lemma wdur_nonneg w : wnonneg w -> 0 <= wdur w.
+Proof.
+  revert w. fix IH 1. intros [d chs|ws|b n|b G|b] H; cbn in *; auto.
+  - induction ws as [|x r IHr]; cbn in *; [lia|]. destruct H as [Hx Hr]. specialize (IH x Hx). specialize (IHr Hr). lia.
+  - specialize (IH b H). lia.
+Qed.
+Lemma wparts_nonneg c ws : Forall wnonneg ws -> pnonneg (wparts c ws).
+Proof. induction 1; cbn; constructor; auto. cbn. apply wdur_nonneg; auto. Qed.
+Lemma wsum_cons x a : wsum (x :: a) = wdur x + wsum a. Proof. reflexivity. Qed.
+Lemma wsum_app a b : wsum (a ++ b) = wsum a + wsum b.
+Proof. induction a as [|x a IH]; [reflexivity|]. rewrite <- app_comm_cons, !wsum_cons, IH. lia. Qed.
+
+(* constants *)
+Definition dlook (vals : list (chan * oq)) (c : chan) : oq := match alookup c vals with Some v => v | None => None end.
+
+Lemma all_const_sample chs : forall vals, all_const chs = Some vals ->
+  forall d c t, usample (WAtom d chs) c t = dlook vals c.
+Proof.
+  induction chs as [|[k [v|es]] chs IH]; intros vals H d c t; cbn in *; try discriminate.
+  - inversion H; reflexivity.
+  - destruct (all_const chs) as [r|] eqn:E; cbn in H; [|discriminate]. inversion H; subst. unfold dlook; cbn.
+    destruct (N.eqb c k); [reflexivity|]. apply (IH r eq_refl d c t).
+Qed.
+Lemma cvd_sample w vals : cvd w = Some vals -> forall c t, usample w c t = dlook vals c.
+Proof. destruct w as [d chs| | | |]; cbn; try discriminate. intros H c t. exact (all_const_sample chs vals H d c t). Qed.
+Lemma mk_const_sample d vals c t : usample (mk_const d vals) c t = dlook vals c.
+Proof.
+  unfold mk_const, dlook; cbn. induction vals as [|[k v] r IH]; cbn; [reflexivity|].
+  destruct (N.eqb c k); [reflexivity|exact IH].
+Qed.
+Lemma mk_const_dur d vals : wdur (mk_const d vals) = d. Proof. reflexivity. Qed.
+Lemma mk_const_cvd d vals : cvd (mk_const d vals) = Some vals.
+Proof. unfold mk_const; cbn. induction vals as [|[k v] r IH]; cbn; [reflexivity|]. rewrite IH. reflexivity. Qed.
+
+(* equal dicts look up equally *)
+Lemma q_eqb_eq x y : q_eqb x y = true -> x = y.
+Proof. destruct x, y; unfold q_eqb; cbn. intros H. apply andb_true_iff in H as [A B]. apply Z.eqb_eq in A. apply Pos.eqb_eq in B. subst; reflexivity. Qed.
+Lemma oq_eqb_eq a b : oq_eqb a b = true -> a = b.
+Proof. destruct a, b; cbn; try discriminate; auto. intros H. f_equal. apply q_eqb_eq; auto. Qed.
+Lemma alookup_in {A} c (l : list (chan * A)) v : alookup c l = Some v -> In (c, v) l.
+Proof.
+  induction l as [|[k x] l IH]; cbn; [discriminate|]. destruct (N.eqb c k) eqn:E.
+  - intros H; inversion H; subst. apply N.eqb_eq in E; subst. auto.
+  - auto.
+Qed.
+Lemma dict_sub_look a b : dict_sub a b = true -> forall c v, alookup c a = Some v -> alookup c b = Some v.
+Proof.
+  intros H c v Hc. apply alookup_in in Hc. unfold dict_sub in H. rewrite forallb_forall in H.
+  specialize (H _ Hc). cbn in H. destruct (alookup c b); [|discriminate]. apply oq_eqb_eq in H. subst; reflexivity.
+Qed.
+Lemma dict_eqb_look a b : dict_eqb a b = true -> forall c, dlook a c = dlook b c.
+Proof.
+  intros H c. apply andb_true_iff in H as [H1 H2]. unfold dlook.
+  destruct (alookup c a) eqn:A.
+  - rewrite (dict_sub_look _ _ H1 _ _ A). reflexivity.
+  - destruct (alookup c b) eqn:B; [|reflexivity]. rewrite (dict_sub_look _ _ H2 _ _ B) in A. discriminate.
+Qed.
+
+(* from_sequence *)
+Lemma seq_flatten_sum ws : wsum (seq_flatten ws) = wsum ws.
+Proof.
+  unfold seq_flatten. induction ws as [|w r IH]; [reflexivity|]. cbn [flat_map]. rewrite wsum_app, IH, wsum_cons.
+  destruct w; try (rewrite wsum_cons; cbn; lia). reflexivity.
+Qed.
+Lemma seq_flatten_nonneg ws : Forall wnonneg ws -> Forall wnonneg (seq_flatten ws).
+Proof.
+  unfold seq_flatten. induction 1 as [|w r Hw _ IH]; cbn; [constructor|]. apply Forall_app; split; auto.
+  destruct w; try (constructor; auto). apply wnonneg_seq; auto.
+Qed.
+Lemma wparts_app c a b : wparts c (a ++ b) = wparts c a ++ wparts c b. Proof. apply map_app. Qed.
+Lemma in_range_true a t b : a <= t < b -> (a <=? t) && (t <? b) = true.
+Proof. intros. apply andb_true_iff; split; [apply Z.leb_le|apply Z.ltb_lt]; lia. Qed.
+Lemma walk_flatten c ws : Forall wnonneg ws -> forall time t,
+  walk (wparts c (seq_flatten ws)) time t = walk (wparts c ws) time t.
+Proof.
+  unfold seq_flatten. induction 1 as [|w r Hw Hr IH]; intros time t; [reflexivity|].
+  cbn [flat_map]. rewrite wparts_app.
+  set (g := match w with WSeq l => l | _ => [w] end).
+  assert (Hg : pnonneg (wparts c g)).
+  { apply wparts_nonneg. subst g. destruct w; try (constructor; auto). apply wnonneg_seq; auto. }
+  assert (Ht : total (wparts c g) = wdur w).
+  { rewrite total_wparts. subst g. destruct w; try (rewrite wsum_cons; cbn; lia). reflexivity. }
+  pose proof (total_nonneg _ Hg) as Hpos.
+  change (wparts c (w :: r)) with ((wdur w, usample w c) :: wparts c r). cbn [walk].
+  destruct (Z_lt_dec t time).
+  - rewrite walk_before; [| apply Forall_app; split; [exact Hg| apply wparts_nonneg; apply (seq_flatten_nonneg r Hr)] | lia].
+    destruct (time <=? t) eqn:E; [apply Z.leb_le in E; lia|]. cbn. symmetry. apply walk_before; [apply wparts_nonneg; auto|lia].
+  - destruct (Z_lt_dec t (time + wdur w)).
+    + rewrite walk_app_l by lia. rewrite in_range_true by lia.
+      subst g. destruct w as [d chs|sl|b k|b G|b];
+        try (cbn [wparts map walk]; rewrite in_range_true by (cbn in *; lia); reflexivity).
+      change (usample (WSeq sl) c (t - time)) with (walk (wparts c sl) 0 (t - time)). apply walk_shift0.
+    + rewrite walk_app_r by (auto; lia). rewrite Ht.
+      replace (t <? time + wdur w) with false by (symmetry; apply Z.ltb_ge; lia). rewrite andb_false_r. apply IH.
+Qed.
+
+Lemma seq_const_all ws : forall vals, seq_const (Some vals) ws = Some vals ->
+  Forall (fun w => forall c t, usample w c t = dlook vals c) ws.
+Proof.
+  induction ws as [|w r IH]; intros vals H; cbn in *; [constructor|].
+  destruct (cvd w) as [v2|] eqn:E; [|discriminate]. destruct (dict_eqb vals v2) eqn:D; [|discriminate].
+  constructor; [|apply IH; exact H]. intros c t. rewrite (cvd_sample _ _ E). symmetry. apply dict_eqb_look; auto.
+Qed.
+Lemma seq_const_some ws : forall cv vals, seq_const cv ws = Some vals -> cv = Some vals.
+Proof.
+  induction ws as [|w r IH]; intros cv vals H; cbn in *; [exact H|].
+  destruct cv as [v|]; [|discriminate]. destruct (cvd w); [|discriminate]. destruct (dict_eqb v l); [|discriminate]. apply IH; auto.
+Qed.
+
+Lemma from_sequence_dur ws : ws <> [] -> wdur (from_sequence ws) = wsum ws.
+Proof.
+  intros Hne. unfold from_sequence. destruct ws as [|w0 [|w1 r]]; [congruence|rewrite wsum_cons; cbn; lia|].
+  destruct (seq_const (cvd w0) (w0 :: w1 :: r)); [rewrite mk_const_dur|]; change (wdur (WSeq ?l)) with (wsum l); apply seq_flatten_sum.
+Qed.
+Lemma from_sequence_nonneg ws : Forall wnonneg ws -> wnonneg (from_sequence ws).
+Proof.
+  intros H. unfold from_sequence. destruct ws as [|w0 [|w1 r]]; [cbn; auto|inversion H; auto|].
+  destruct (seq_const (cvd w0) (w0 :: w1 :: r)).
+  - unfold mk_const; cbn -[seq_flatten]. change (0 <= wsum (seq_flatten (w0 :: w1 :: r))). rewrite seq_flatten_sum.
+    clear -H. induction H; [cbn; lia|]. rewrite wsum_cons. apply wdur_nonneg in H. lia.
+  - apply wnonneg_seq. apply seq_flatten_nonneg; auto.
+Qed.
+Lemma from_sequence_sample ws c t : Forall wnonneg ws -> 0 <= t < wsum ws ->
+  usample (from_sequence ws) c t = walk (wparts c ws) 0 t.
+Proof.
+  intros Hn Ht. unfold from_sequence. destruct ws as [|w0 [|w1 r]]; [cbn in *; lia| |].
+  - rewrite wsum_cons in Ht. cbn in Ht. cbn [wparts map walk]. rewrite in_range_true by lia.
+    f_equal; lia.
+  - destruct (seq_const (cvd w0) (w0 :: w1 :: r)) as [vals|] eqn:E.
+    + rewrite mk_const_sample. pose proof (seq_const_some _ _ _ E) as E0. rewrite E0 in E.
+      pose proof (seq_const_all _ _ E) as Hall. symmetry. apply walk_const; [|rewrite total_wparts; lia].
+      clear -Hall. induction Hall as [|x l Hx _ IH]; [constructor|]. cbn [wparts map].
+      constructor; [cbn; intros; apply Hx|exact IH].
+    + change (usample (WSeq ?l) c t) with (walk (wparts c l) 0 t). apply walk_flatten; auto.
+Qed.
+
+(* from_repetition *)
+Lemma total_repeat d f n : total (repeat (d, f) n) = Z.of_nat n * d.
+Proof. induction n; [reflexivity|]. cbn [repeat]. rewrite total_cons, IHn. lia. Qed.
+Lemma from_repetition_dur w n : wdur (from_repetition w n) = Z.of_nat n * wdur w.
+Proof. unfold from_repetition. destruct (cvd w); reflexivity. Qed.
+Lemma from_repetition_nonneg w n : wnonneg w -> wnonneg (from_repetition w n).
+Proof. intros H. unfold from_repetition. destruct (cvd w); cbn; auto. apply wdur_nonneg in H. lia. Qed.
+Lemma from_repetition_sample w n c t : 0 <= t < Z.of_nat n * wdur w ->
+  usample (from_repetition w n) c t = walk (repeat (wdur w, usample w c) n) 0 t.
+Proof.
+  intros Ht. unfold from_repetition. destruct (cvd w) as [vals|] eqn:E; [|reflexivity].
+  rewrite mk_const_sample. symmetry. apply walk_const; [|rewrite total_repeat; lia].
+  clear Ht. induction n; cbn; constructor; auto. cbn. intros. apply cvd_sample; auto.
+Qed.
+
+(* ------------------------------------------------------------------------------------------------------------- *)
+(* to_waveform plays the program *)
+Section loop_induction.
+  Variable P : loop -> Prop.
+  Hypothesis HL : forall w, P (Leaf w).
+  Hypothesis HN : forall rep meas ch, Forall P ch -> P (Node rep meas ch).
+  Fixpoint loop_ind2 (l : loop) : P l :=
+    match l with
+    | Leaf w => HL w
+    | Node r m ch => HN r m ch ((fix go (ch : list loop) : Forall P ch :=
+                                  match ch with [] => Forall_nil _ | x :: r => Forall_cons _ (loop_ind2 x) (go r) end) ch)
+    end.
+End loop_induction.
+
+Lemma lok_node rep m ch : lok (Node rep m ch) <-> (0 < rep)%nat /\ ch <> [] /\ Forall lok ch.
+Proof.
+  cbn. split; intros (A & B & C); repeat split; auto; clear A B.
+  - induction ch; cbn in *; constructor; tauto.
+  - induction C; cbn; tauto.
+Qed.
+
+Lemma seq_of_children ch :
+  match ch with [x] => to_waveform x | _ => from_sequence (map to_waveform ch) end = from_sequence (map to_waveform ch).
+Proof. destruct ch as [|x [|y r]]; reflexivity. Qed.
+
+Lemma wparts_flat_map c (ch : list loop) :
+  wparts c (flat_map flat ch) = concat (map (fun x => wparts c (flat x)) ch).
+Proof. induction ch; cbn [flat_map map concat]; [reflexivity|]. rewrite wparts_app, IHch. reflexivity. Qed.
+Lemma wparts_concat_repeat c L n : wparts c (concat (repeat L n)) = concat (repeat (wparts c L) n).
+Proof. induction n; cbn [repeat concat]; [reflexivity|]. rewrite wparts_app, IHn. reflexivity. Qed.
+Lemma wsum_concat_repeat L n : wsum (concat (repeat L n)) = Z.of_nat n * wsum L.
+Proof. induction n; cbn [repeat concat]; [reflexivity|]. rewrite wsum_app, IHn. lia. Qed.
+Lemma wsum_flat_map ch : (forall x, In x ch -> wsum (flat x) = ldur x) -> wsum (flat_map flat ch) = body_dur ch.
+Proof.
+  induction ch as [|x r IH]; intros H; [reflexivity|]. cbn [flat_map]. rewrite wsum_app, IH by (intros; apply H; right; auto).
+  rewrite H by (left; auto). reflexivity.
+Qed.
+Lemma wsum_map_to_waveform ch : (forall x, In x ch -> wdur (to_waveform x) = ldur x) -> wsum (map to_waveform ch) = body_dur ch.
+Proof.
+  induction ch as [|x r IH]; intros H; [reflexivity|]. cbn [map]. rewrite wsum_cons, IH by (intros; apply H; right; auto).
+  rewrite H by (left; auto). reflexivity.
+Qed.
+Lemma body_dur_cons x r : body_dur (x :: r) = ldur x + body_dur r. Proof. reflexivity. Qed.
+Lemma body_dur_nonneg ch : (forall x, In x ch -> 0 < ldur x) -> 0 <= body_dur ch.
+Proof.
+  induction ch as [|x r IH]; intros H; [cbn; lia|]. rewrite body_dur_cons.
+  assert (0 < ldur x) by (apply H; left; auto). assert (0 <= body_dur r) by (apply IH; intros; apply H; right; auto). lia.
+Qed.
+Lemma body_dur_pos ch : ch <> [] -> (forall x, In x ch -> 0 < ldur x) -> 0 < body_dur ch.
+Proof.
+  intros Hne H. destruct ch as [|x r]; [congruence|]. rewrite body_dur_cons.
+  assert (0 < ldur x) by (apply H; left; auto). assert (0 <= body_dur r) by (apply body_dur_nonneg; intros; apply H; right; auto). lia.
+Qed.
+Lemma ldur_node rep m ch : ldur (Node rep m ch) = Z.of_nat rep * body_dur ch. Proof. reflexivity. Qed.
+
+Lemma map_repeat' {A B} (f : A -> B) x n : map f (repeat x n) = repeat (f x) n.
+Proof. induction n; cbn; [reflexivity|]. rewrite IHn. reflexivity. Qed.
+
+Definition tw_ok (l : loop) : Prop :=
+  lok l -> 0 < ldur l /\ wdur (to_waveform l) = ldur l /\ wnonneg (to_waveform l) /\ wsum (flat l) = ldur l /\
+           Forall wnonneg (flat l) /\
+           forall c t, 0 <= t < ldur l -> usample (to_waveform l) c t = walk (wparts c (flat l)) 0 t.
+
+Lemma to_waveform_ok : forall l, tw_ok l.
+Proof.
+  apply loop_ind2; unfold tw_ok.
+  - intros w [Hd Hn]. cbn [to_waveform flat ldur]. repeat split; auto.
+    + rewrite wsum_cons. cbn; lia.
+    + intros c t Ht. cbn [wparts map walk]. rewrite in_range_true by lia. f_equal; lia.
+  - intros rep m ch IH Hok. apply lok_node in Hok as (Hrep & Hne & Hch).
+    assert (IH' : forall x, In x ch -> tw_ok x) by (apply Forall_forall; exact IH).
+    assert (Hlok : forall x, In x ch -> lok x) by (apply Forall_forall; exact Hch).
+    assert (Hbody : 0 < body_dur ch).
+    { apply body_dur_pos; auto. intros x Hx. apply (IH' x Hx (Hlok x Hx)). }
+    set (s := from_sequence (map to_waveform ch)).
+    assert (Hws : Forall wnonneg (map to_waveform ch)).
+    { apply Forall_forall. intros w Hw. apply in_map_iff in Hw as (x & <- & Hx). apply (IH' x Hx (Hlok x Hx)). }
+    assert (Hsd : wdur s = body_dur ch).
+    { unfold s. rewrite from_sequence_dur by (destruct ch; cbn; congruence).
+      apply wsum_map_to_waveform. intros x Hx. apply (IH' x Hx (Hlok x Hx)). }
+    assert (Hsn : wnonneg s) by (apply from_sequence_nonneg; auto).
+    assert (HL : wsum (flat_map flat ch) = body_dur ch).
+    { apply wsum_flat_map. intros x Hx. apply (IH' x Hx (Hlok x Hx)). }
+    assert (HLn : Forall wnonneg (flat_map flat ch)).
+    { apply Forall_forall. intros w Hw. apply in_flat_map in Hw as (x & Hx & Hw).
+      destruct (IH' x Hx (Hlok x Hx)) as (_ & _ & _ & _ & F & _). rewrite Forall_forall in F. auto. }
+    assert (Hs : forall c t, 0 <= t < body_dur ch -> usample s c t = walk (wparts c (flat_map flat ch)) 0 t).
+    { intros c t Ht. unfold s. rewrite from_sequence_sample; auto.
+      2:{ rewrite wsum_map_to_waveform; auto. intros x Hx. apply (IH' x Hx (Hlok x Hx)). }
+      rewrite wparts_flat_map, walk_concat.
+      2:{ apply Forall_forall. intros g Hg. apply in_map_iff in Hg as (x & <- & Hx). apply wparts_nonneg.
+          apply (IH' x Hx (Hlok x Hx)). }
+      unfold wparts at 1. rewrite !map_map. apply walk_ext.
+      clear -IH' Hlok. induction ch as [|x r IHr]; cbn [map]; constructor.
+      - destruct (IH' x (or_introl eq_refl) (Hlok x (or_introl eq_refl))) as (_ & D & _ & W & _ & U).
+        cbn [fst snd group]. rewrite total_wparts. split; [lia|]. intros t Ht. apply U. lia.
+      - apply IHr; intros; [apply IH'|apply Hlok]; right; auto. }
+    cbn [to_waveform]. rewrite seq_of_children. fold s. rewrite ldur_node. cbn [flat].
+    assert (Hrz : 1 <= Z.of_nat rep) by lia.
+    repeat split.
+    + nia.
+    + destruct (1 <? Z.of_nat rep) eqn:E; [rewrite from_repetition_dur; lia|].
+      apply Z.ltb_ge in E. replace (Z.of_nat rep) with 1 by lia. lia.
+    + destruct (1 <? Z.of_nat rep); [apply from_repetition_nonneg|]; auto.
+    + rewrite wsum_concat_repeat. lia.
+    + apply Forall_forall. intros w Hw. apply in_concat in Hw as (L & HL1 & HL2). apply repeat_spec in HL1. subst L.
+      rewrite Forall_forall in HLn. auto.
+    + intros c t Ht. rewrite wparts_concat_repeat, walk_concat.
+      2:{ apply Forall_forall. intros g Hg. apply repeat_spec in Hg. subst g. apply wparts_nonneg; auto. }
+      rewrite map_repeat'.
+      assert (Hext : walk (repeat (wdur s, usample s c) rep) 0 t = walk (repeat (group (wparts c (flat_map flat ch))) rep) 0 t).
+      { apply walk_ext. clear -Hsd Hs HL. induction rep; cbn [repeat]; constructor; auto.
+        cbn [fst snd group]. rewrite total_wparts. split; [lia|]. intros t Ht. apply Hs. lia. }
+      rewrite <- Hext.
+      destruct (1 <? Z.of_nat rep) eqn:E.
+      * apply from_repetition_sample. lia.
+      * apply Z.ltb_ge in E. assert (rep = 1%nat) by lia. subst rep. cbn [repeat walk].
+        rewrite in_range_true by lia. f_equal; lia.
+Qed.
